@@ -600,7 +600,7 @@ def r10_grouping_table(ctx, R='C01.R10'):
       consumers = [Obj('qtyping:OpToTensorParams', {'subgraph_op_id': 10 + i, 'transformations': [QT[t] for t in ch], 'parameters': None if ch == ['NO_QUANTIZE'] else p})
                    for i, (ch, p) in enumerate(combo)]
       param = Obj('qtyping:TensorTransformationParams', {'tensor_name': 't', 'producer': None, 'consumers': consumers})
-      outs = it.outcomes(f, [Obj('x:self', {}), param])
+      outs = it.outcomes(f, [Obj(f.cls.fq if f.cls is not None else 'x:self', {}), param])
       rows += 1
       if len(outs) != 1 or outs[0].kind != 'return':
         ctx.check(R, False, f.node, f, f'{combo}', f'grouping is not decided / raises: {[o.short() for o in outs]}')
